@@ -134,19 +134,19 @@ Definition label_eq_dec (a b : label) : {a = b} + {a <> b}.
 Proof. decide equality; apply N.eq_dec. Defined.
 
 (* ---- hyper's contract ------------------------------------------------------------------------- *)
-(* after graceful_shutdown no new stream is handed to the service; a connection future never
-   resolves on its own while streams are in flight (anything else is the peer or the transport
-   going away: PeerAbort); once graceful_shutdown has been called on an established connection it
-   does resolve when nothing is in flight *)
-Definition hyper_contract (admits resolves : bool -> list kid -> bool) : Prop :=
-  (forall infl, admits true infl = false) /\
-  (forall gs infl, resolves gs infl = true -> infl = []) /\
-  resolves true [] = true.
+(* 1. after the final GOAWAY no new stream is handed to the service;
+   2. a connection future never resolves on its own while streams are in flight (anything else
+      is the peer or the transport going away: PeerAbort);
+   3. after the final GOAWAY it does resolve when nothing is in flight *)
+Definition hyper_contract (admits resolves : gphase -> list kid -> bool) : Prop :=
+  (forall infl, admits GFin infl = false) /\
+  (forall hp infl, resolves hp infl = true -> infl = []) /\
+  resolves GFin [] = true.
 
 Lemma hyper_std_contract : hyper_contract admits_std resolves_std.
 Proof.
   repeat split.
-  intros gs infl. destruct infl; [reflexivity|discriminate].
+  intros hp infl. destruct hp, infl; try discriminate; reflexivity.
 Qed.
 
 (* ---- classification of labels ------------------------------------------------------------------ *)
@@ -154,21 +154,24 @@ Qed.
 Definition progress (l : label) : bool :=
   match l with
   | Send | DropAcceptorRx | ServeReturns | ConnSeesChange _ | CallCompletes _ _ | ConnCloses _
-  | DropReceiver _ => true
+  | DropReceiver _ | Goaway _ => true
   | _ => false
   end.
 Definition is_new_call (l : label) : bool := match l with NewCall _ _ => true | _ => false end.
-Definition is_handshake (l : label) : bool := match l with HandshakeDone _ => true | _ => false end.
+(* moves that need the peer: its preface, its acknowledgement of the shutdown ping *)
+Definition is_peer (l : label) : bool :=
+  match l with HandshakeDone _ | GoawayFinal _ => true | _ => false end.
 
 Definition acc_rx (a : acceptor) : nat :=
   match a with Selecting | Draining AtSend | Draining AtDrop => 1 | _ => 0 end.
 Definition acc_ver (a : acceptor) : nat :=
   match a with Selecting | Draining AtSend => 0 | _ => 1 end.
 Definition holds_rx (v : cstate) : nat :=
-  match v with Live _ _ _ _ => 1 | Closed true => 1 | Closed false => 0 end.
+  match v with Live _ _ _ _ _ => 1 | Closed true => 1 | Closed false => 0 end.
 Definition wf_conn (v : cstate) : Prop :=
   match v with
-  | Live h gs f infl => (f = true -> gs = true) /\ (h = HS -> infl = [])
+  | Live h gs f hp infl =>
+      (f = true -> gs = true) /\ (h = HS -> infl = [] /\ hp = GRun) /\ (hp <> GRun -> gs = true)
   | Closed _ => True
   end.
 
@@ -176,6 +179,7 @@ Record Inv (s : st) : Prop := mkInv {
   inv_rx : rx_count s = acc_rx (acc s) + wsum holds_rx (conns s);
   inv_ver : version s = acc_ver (acc s);
   inv_fused : sig_fused s = true -> acc s <> Selecting;
+  inv_ready : sig_fused s = true -> sig_ready s = true;
   inv_done : acc s = Done -> rx_count s = 0;
   inv_wf : Forall (fun p => wf_conn (snd p)) (conns s);
   inv_nodup : NoDup (map fst (conns s))
@@ -189,20 +193,27 @@ Definition acc_w (a : acceptor) : nat :=
 Definition b2n (b : bool) : nat := if b then 1 else 0.
 Definition conn_w (v : cstate) : nat :=
   match v with
-  | Live h gs f infl =>
-      2 + match h with HS => 1 | Open => 0 end + b2n (negb gs) + b2n (negb f) + length infl
+  | Live h gs f hp infl =>
+      2 + match h with HS => 1 | Open => 0 end + b2n (negb gs) + b2n (negb f) +
+      match hp with GRun => 2 | GAnn => 1 | GFin => 0 end + length infl
   | Closed b => b2n b
   end.
-Definition mu (s : st) : nat := acc_w (acc s) + wsum conn_w (conns s).
+Definition mu (s : st) : nat :=
+  acc_w (acc s) + b2n (negb (sig_ready s)) + wsum conn_w (conns s).
 
 Definition inflight (s : st) (c : cid) : list kid :=
-  match lookup c (conns s) with Some (Live _ _ _ infl) => infl | _ => [] end.
+  match lookup c (conns s) with Some (Live _ _ _ _ infl) => infl | _ => [] end.
 Definition all_closed (s : st) : Prop :=
   forall c v, lookup c (conns s) = Some v -> v = Closed false.
 (* a connection whose peer has not sent the preface and that has been told to shut down *)
-Definition silent (v : cstate) : Prop := exists infl, v = Live HS true true infl.
+Definition silent (v : cstate) : Prop := exists hp infl, v = Live HS true true hp infl.
 Definition only_silent (s : st) : Prop :=
   forall c v, lookup c (conns s) = Some v -> v = Closed false \/ silent v.
+(* ... or one that has announced the shutdown, has nothing in flight, and waits for its peer to
+   acknowledge the shutdown ping *)
+Definition awaits_peer (v : cstate) : Prop := silent v \/ v = Live Open true true GAnn [].
+Definition only_awaiting_peers (s : st) : Prop :=
+  forall c v, lookup c (conns s) = Some v -> v = Closed false \/ awaits_peer v.
 
 Ltac inv_step H :=
   unfold Shutdown.step_fn, set_conn, set_acc in H;
@@ -212,7 +223,7 @@ Ltac inv_step H :=
   try (injection H as <-).
 
 Section Runs.
-  Variable admits resolves : bool -> list kid -> bool.
+  Variable admits resolves : gphase -> list kid -> bool.
   Notation stepf := (step_fn admits resolves).
 
   Definition step (s : st) (l : label) (s' : st) : Prop := stepf s l = Some s'.
@@ -280,7 +291,7 @@ Section Runs.
 
   Lemma step_inv s l s' : Inv s -> step s l s' -> Inv s'.
   Proof.
-    intros [Irx Iver Ifu Idn Iwf Ind] H. unfold step in H.
+    intros [Irx Iver Ifu Ird Idn Iwf Ind] H. unfold step in H.
     destruct l; inv_step H; prep Iwf;
       try match goal with E : acc _ = _ |- _ => rewrite E in * end; simpl in *.
     all: constructor; simpl;
@@ -290,7 +301,7 @@ Section Runs.
     all: try (intuition congruence).
     all: try (intros; rewrite ?wsum_cons; use_wsum; simpl in *; lia).
     all: try (intros e; specialize (Idn e); use_wsum; simpl in *; lia).
-    - constructor; [simpl; split; [discriminate|reflexivity]|assumption].
+    - constructor; [simpl; intuition congruence|assumption].
     - constructor; [apply lookup_none_notin; assumption|assumption].
   Qed.
 
@@ -359,18 +370,18 @@ Section Runs.
 
   Definition fused_n (s : st) (c : cid) : nat :=
     match lookup c (conns s) with
-    | Some (Live _ _ f _) => b2n f
+    | Some (Live _ _ f _ _) => b2n f
     | Some (Closed _) => 1
     | None => 0
     end.
   Lemma fused_n_le1 s c : fused_n s c <= 1.
-  Proof. unfold fused_n. destruct (lookup c (conns s)) as [[? ? [|] ?|?]|]; simpl; lia. Qed.
+  Proof. unfold fused_n. destruct (lookup c (conns s)) as [[? ? [|] ? ?|?]|]; simpl; lia. Qed.
 
   Lemma fused_mono s l s' c : step s l s' -> fused_n s c <= fused_n s' c.
   Proof.
     unfold step, fused_n. intros H. destruct l; inv_step H; simpl; try lia.
     all: try (lk c0 c; try rewrite Heqo; simpl;
-              try (destruct (lookup c (conns s)) as [[? ? [|] ?|?]|]);
+              try (destruct (lookup c (conns s)) as [[? ? [|] ? ?|?]|]);
               repeat match goal with |- context [b2n ?b] => is_var b; destruct b end;
               simpl; lia).
     destruct (N.eqb_spec c0 c) as [->|ne]; [rewrite Heqo; simpl; lia|lia].
@@ -443,11 +454,21 @@ Section Runs.
       + intros c v L. now rewrite (AC c v L).
   Qed.
 
-  Lemma done_terminal s l s' : Inv s -> acc s = Done -> step s l s' -> False.
+  (* after the return nothing moves any more; only the user's signal may still fire, unheard *)
+  Lemma done_terminal s l s' :
+    Inv s -> acc s = Done -> step s l s' -> l = SignalFires /\ acc s' = Done.
   Proof.
     intros I D H. pose proof (done_all_closed s I D) as AC. unfold step in H.
-    destruct l; inv_step H; try congruence.
+    destruct l; inv_step H; try congruence; auto.
     all: match goal with L : lookup _ _ = Some _ |- _ => apply AC in L; discriminate end.
+  Qed.
+
+  Lemma done_run s ls s' :
+    Inv s -> acc s = Done -> run s ls s' -> Forall (fun l => l = SignalFires) ls /\ acc s' = Done.
+  Proof.
+    intros I D R. induction R; [split; [constructor|assumption]|].
+    destruct (done_terminal _ _ _ I D H) as [-> D'].
+    destruct (IHR (step_inv _ _ _ I H) D') as [F D2]. split; [constructor; auto|assumption].
   Qed.
 
   (* what the history of a run says about the connections *)
@@ -508,6 +529,8 @@ Section Runs.
     destruct l; try discriminate nn; inv_step H; simpl; try congruence;
       try match goal with E : acc _ = _ |- _ => rewrite ?E end; simpl; try lia.
     all: try (use_wsum; simpl in *; lia).
+    all: try (rewrite Heqb; simpl; lia).
+    all: try (destruct (sig_ready s); simpl; lia).
     apply mem_in, (del_length k) in Heqb. use_wsum. simpl in *. lia.
   Qed.
 
@@ -522,14 +545,42 @@ Section Runs.
 
   Hypothesis HC : hyper_contract admits resolves.
 
-  Lemma new_call_only_before_graceful_shutdown s c k s' :
+  Lemma new_call_only_before_final_goaway s c k s' :
     step s (NewCall c k) s' ->
-    exists f infl, lookup c (conns s) = Some (Live Open false f infl) /\ ~ In k infl.
+    exists gs f hp infl,
+      lookup c (conns s) = Some (Live Open gs f hp infl) /\ hp <> GFin /\ ~ In k infl.
   Proof.
     unfold step. intros H. inv_step H. apply andb_true_iff in Heqb as [A M].
-    destruct gs; [rewrite (proj1 HC) in A; discriminate|].
-    exists fused, infl. split; [reflexivity|].
-    rewrite <- mem_in. now destruct (mem k infl).
+    exists gs, fused, hp, infl. split; [reflexivity|]. split.
+    - intros ->. rewrite (proj1 HC) in A. discriminate.
+    - rewrite <- mem_in. now destruct (mem k infl).
+  Qed.
+
+  (* once the final GOAWAY of a connection is out (or the connection is gone) no call starts on it *)
+  Definition past_final (s : st) (c : cid) : Prop :=
+    match lookup c (conns s) with
+    | Some (Live _ _ _ GFin _) | Some (Closed _) => True
+    | _ => False
+    end.
+  Lemma past_final_stable s l s' c : step s l s' -> past_final s c -> past_final s' c.
+  Proof.
+    unfold step, past_final. intros H P.
+    destruct l; inv_step H; simpl; auto.
+    all: try (match goal with |- context [upd ?c0 _ _] => lk c0 c end;
+              [rewrite Heqo in *; simpl in *; try tauto; try (destruct hp; tauto)|auto]).
+    destruct (N.eqb_spec c0 c) as [->|ne]; [rewrite Heqo in P; destruct P|auto].
+  Qed.
+  Lemma no_new_call_past_final s ls s' c :
+    run s ls s' -> past_final s c -> forall k, ~ In (NewCall c k) ls.
+  Proof.
+    induction 1; intros P k; simpl; [tauto|]. intros [e|i].
+    - subst l. destruct (new_call_only_before_final_goaway _ _ _ _ H) as (gs & f & hp & infl & L & nf & _).
+      unfold past_final in P. rewrite L in P. destruct hp; auto.
+    - eapply IHrun; eauto using past_final_stable.
+  Qed.
+  Lemma goaway_final_is_final s c s' : step s (GoawayFinal c) s' -> past_final s' c.
+  Proof.
+    unfold step, past_final. intros H. inv_step H. simpl. rewrite lookup_upd_same, Heqo. exact I.
   Qed.
 
   Lemma forallb_false {A} (f : A -> bool) l :
@@ -541,30 +592,45 @@ Section Runs.
     - exists x. auto.
   Qed.
 
+  (* connections on which nobody but the peer can move *)
+  Definition waits (v : cstate) : bool :=
+    match v with
+    | Closed false => true
+    | Live HS true true _ _ => true
+    | Live Open true true GAnn [] => true
+    | _ => false
+    end.
+
   Lemma no_deadlock s p :
     Inv s -> acc s = Draining p ->
     (exists l s', step s l s' /\ progress l = true) \/
-    (p = AtWait /\ rx_count s <> 0 /\ only_silent s).
+    (p = AtWait /\ rx_count s <> 0 /\ only_awaiting_peers s).
   Proof.
     intros I A. destruct p.
     - left. exists Send. eexists. unfold step. simpl. rewrite A. split; reflexivity.
     - left. exists DropAcceptorRx. eexists. unfold step. simpl. rewrite A. split; reflexivity.
-    - destruct (forallb (fun p => quiet (snd p)) (conns s)) eqn:Q.
+    - destruct (forallb (fun p => waits (snd p)) (conns s)) eqn:Q.
       + destruct (Nat.eq_dec (rx_count s) 0) as [z|nz].
         * left. exists ServeReturns. eexists. unfold step. simpl. rewrite A, z. split; reflexivity.
         * right. repeat split; auto. intros c v L. apply lookup_in in L.
           rewrite forallb_forall in Q. specialize (Q _ L). simpl in Q.
-          destruct v as [[|] [|] [|] infl|[|]]; try discriminate; [right; eexists; reflexivity|now left].
+          destruct v as [[|] [|] [|] hp infl|[|]]; try discriminate.
+          -- right. left. eexists. eexists. reflexivity.
+          -- destruct hp; try discriminate. destruct infl; try discriminate. right. now right.
+          -- now left.
       + left. apply forallb_false in Q as ([c v] & i & q). simpl in q.
         apply (in_lookup _ _ _ (inv_nodup _ I)) in i.
         pose proof (forall_lookup wf_conn _ _ _ (inv_wf _ I) i) as Wf. simpl in Wf.
         pose proof (inv_ver _ I) as V. rewrite A in V. simpl in V.
-        destruct v as [h gs [|] infl|[|]]; try discriminate q.
-        * destruct Wf as [Wg Wh]. rewrite (Wg eq_refl) in *.
+        destruct v as [h gs [|] hp infl|[|]]; try discriminate q.
+        * destruct Wf as (Wg & Wh & Wp). rewrite (Wg eq_refl) in *.
           destruct h; [discriminate q|].
           destruct infl as [|k r].
-          -- exists (ConnCloses c). eexists. unfold step. simpl. rewrite i.
-             rewrite (proj2 (proj2 HC)). split; reflexivity.
+          -- destruct hp.
+             ++ exists (Goaway c). eexists. unfold step. simpl. rewrite i. split; reflexivity.
+             ++ discriminate q.
+             ++ exists (ConnCloses c). eexists. unfold step. simpl. rewrite i.
+                rewrite (proj2 (proj2 HC)). split; reflexivity.
           -- exists (CallCompletes c k). eexists. unfold step. simpl. rewrite i.
              unfold mem. simpl. rewrite N.eqb_refl. simpl. split; reflexivity.
         * exists (ConnSeesChange c). eexists. unfold step. simpl. rewrite i, V. simpl.
@@ -578,22 +644,24 @@ Section Runs.
   Lemma serve_can_return s :
     Inv s -> acc s <> Selecting ->
     exists ls s', run s ls s' /\
-                  Forall (fun l => progress l = true \/ is_handshake l = true) ls /\
+                  Forall (fun l => progress l = true \/ is_peer l = true) ls /\
                   acc s' = Done /\ length ls <= mu s.
   Proof.
     remember (mu s) as n eqn:En. revert s En.
     induction n as [n IH] using lt_wf_ind. intros s En I ns.
     destruct (acc s) as [|p|] eqn:A; [contradiction| |].
-    - assert (next : exists l s', step s l s' /\ (progress l = true \/ is_handshake l = true) /\
+    - assert (next : exists l s', step s l s' /\ (progress l = true \/ is_peer l = true) /\
                                    is_new_call l = false).
       { destruct (no_deadlock s p I A) as [(l & s' & H & P)|(-> & nz & OS)].
         - exists l, s'. auto using progress_not_new_call.
         - pose proof (inv_rx _ I) as E. rewrite A in E. simpl in E.
           destruct (wsum_pos holds_rx (conns s)) as (c & v & i & hv); [lia|].
           apply (in_lookup _ _ _ (inv_nodup _ I)) in i.
-          destruct (OS c v i) as [->|[infl ->]]; [simpl in hv; lia|].
-          exists (HandshakeDone c). eexists. unfold step. simpl. rewrite i.
-          split; [reflexivity|]. split; [right|]; reflexivity. }
+          destruct (OS c v i) as [->|[(hp & infl & ->)| ->]]; [simpl in hv; lia| |].
+          + exists (HandshakeDone c). eexists. unfold step. simpl. rewrite i.
+            split; [reflexivity|]. split; [right|]; reflexivity.
+          + exists (GoawayFinal c). eexists. unfold step. simpl. rewrite i.
+            split; [reflexivity|]. split; [right|]; reflexivity. }
       destruct next as (l & s1 & H & P & nn).
       assert (ns1 : acc s <> Selecting) by congruence.
       pose proof (step_decreases _ _ _ H ns1 nn) as D.
@@ -665,38 +733,51 @@ Lemma observe_closed_holding l : observe (closed_holding l) = [].
 Proof. induction l as [|[c [h g f i|[|]]] r IH]; simpl; auto. Qed.
 
 Lemma observe_see_all l : observe (see_all l) = [].
-Proof. induction l as [|[c [h g [|] i|b]] r IH]; simpl; auto. Qed.
+Proof. induction l as [|[c [h g [|] hp i|b]] r IH]; simpl; auto. Qed.
 
-Lemma explain_observe s e ls :
-  explain s e = Some ls -> observe ls = if visible e then [e] else [].
+Lemma observe_hs s c : observe (hs_if_needed s c) = [].
+Proof. unfold hs_if_needed. destruct (lookup c (conns s)) as [[[|] ? ? ? ?|?]|]; reflexivity. Qed.
+
+Lemma observe_tell age s c t : tell age s c = Some t -> observe t = [].
 Proof.
-  destruct e; simpl; intros H; try discriminate; injection H as <-; try reflexivity.
-  - unfold hs_if_needed. destruct (lookup c (conns s)) as [[[|] ? ? ?|?]|]; reflexivity.
-  - unfold hs_if_needed. destruct (lookup c (conns s)) as [[[|] ? ? ?|?]|]; reflexivity.
-  - rewrite !observe_app, observe_closed_holding. destruct (acc s) as [|[| |]|]; reflexivity.
-  - rewrite !observe_app, observe_closed_holding, observe_see_all.
+  unfold tell. destruct (lookup c (conns s)) as [[? [|] ? ? ?|?]|];
+    try (intros H; injection H as <-; reflexivity).
+  destruct (acc s) as [|[| |]|]; try (intros H; injection H as <-; reflexivity).
+  destruct age; [intros H; injection H as <-; reflexivity|discriminate].
+Qed.
+
+Lemma explain_observe age s e ls :
+  explain age s e = Some ls -> observe ls = if visible e then [e] else [].
+Proof.
+  destruct e; simpl; intros H; try discriminate;
+    try (injection H as <-; rewrite ?observe_app, ?observe_hs; reflexivity).
+  - injection H as <-.
+    rewrite !observe_app, observe_closed_holding. destruct (acc s) as [|[| |]|]; reflexivity.
+  - destruct (tell age s c) as [t|] eqn:T; [|discriminate]. injection H as <-.
+    rewrite !observe_app, observe_hs, (observe_tell _ _ _ _ T). reflexivity.
+  - injection H as <-. rewrite !observe_app, observe_closed_holding, observe_see_all.
     destruct (acc s) as [|[| |]|]; reflexivity.
 Qed.
 
-Lemma check_trace_sound s evs s' :
-  check_trace s evs = Some s' -> exists ls, run_std s ls s' /\ observe ls = filter visible evs.
+Lemma check_trace_sound age s evs s' :
+  check_trace age s evs = Some s' -> exists ls, run_std s ls s' /\ observe ls = filter visible evs.
 Proof.
   revert s. induction evs as [|e r IH]; simpl; intros s H.
   - injection H as <-. exists []. split; constructor.
-  - destruct (explain s e) as [ls|] eqn:E; [|discriminate].
+  - destruct (explain age s e) as [ls|] eqn:E; [|discriminate].
     destruct (exec admits_std resolves_std s ls) as [s1|] eqn:X; [|discriminate].
     destruct (post_ok s1 e); [|discriminate].
     apply exec_run in X. destruct (IH _ H) as (ls2 & R & O).
     exists (ls ++ ls2). split; [eapply run_app; eauto|].
-    rewrite observe_app, (explain_observe _ _ _ E), O. destruct (visible e); reflexivity.
+    rewrite observe_app, (explain_observe _ _ _ _ E), O. destruct (visible e); reflexivity.
 Qed.
 
-Lemma trace_ok_sound evs :
-  trace_ok evs = true ->
+Lemma trace_ok_sound age evs :
+  trace_ok age evs = true ->
   exists ls s, run_std init_st ls s /\ observe ls = filter visible evs /\ acc s = Done.
 Proof.
-  unfold trace_ok. destruct (check_trace init_st evs) as [s|] eqn:C; [|discriminate].
-  intros D. destruct (check_trace_sound _ _ _ C) as (ls & R & O).
+  unfold trace_ok. destruct (check_trace age init_st evs) as [s|] eqn:C; [|discriminate].
+  intros D. destruct (check_trace_sound _ _ _ _ C) as (ls & R & O).
   exists ls, s. repeat split; auto. destruct (acc s); try discriminate; reflexivity.
 Qed.
 
@@ -746,23 +827,49 @@ Proof.
   - intros H. apply in_flat_map. eexists. split; [exact H|simpl; auto].
 Qed.
 
+Lemma fired_before_ready admits resolves s ls s' :
+  run admits resolves s ls s' -> sig_ready s' = true -> sig_ready s = true \/ In SignalFires ls.
+Proof.
+  induction 1; intros Rd; [now left|].
+  destruct (IHrun Rd) as [r|i]; [|right; now right].
+  unfold step in H. destruct l; inv_step H; simpl in *; auto.
+Qed.
+
+Lemma observed_needs_ready admits resolves s s' :
+  step admits resolves s SignalObserved s' -> sig_ready s = true.
+Proof. unfold step. intros H. inv_step H. reflexivity. Qed.
+
+Lemma observe_only_fires l2 :
+  Forall (fun l => l = SignalFires) l2 -> Forall (fun e => e = ESignalFired) (observe l2).
+Proof. induction 1; simpl; [constructor|]. subst. simpl. constructor; auto. Qed.
+
 (* what an accepted trace guarantees, in terms of the observed events alone *)
-Lemma trace_ok_properties evs :
-  trace_ok evs = true ->
+Lemma trace_ok_properties age evs :
+  trace_ok age evs = true ->
   let evs := filter visible evs in
   (forall e e1 e2 c, e = ESignal \/ e = EIncomingEnd -> evs = e1 ++ e :: e2 -> ~ In (EAccept c) e2) /\
+  (forall e1 e2, evs = e1 ++ ESignal :: e2 -> In ESignalFired e1) /\
   (forall e1 e2, evs = e1 ++ EServeReturned :: e2 ->
-     e2 = [] /\ forall c, In (EAccept c) e1 -> In (EConnClosed c) e1 \/ In (EPeerAbort c) e1) /\
-  (forall c k, In (ECallStart c k) evs -> In (ECallDone c k) evs \/ In (EPeerAbort c) evs).
+     Forall (fun e => e = ESignalFired) e2 /\
+     forall c, In (EAccept c) e1 -> In (EConnClosed c) e1 \/ In (EPeerAbort c) e1) /\
+  (forall c k, In (ECallStart c k) evs -> In (ECallDone c k) evs \/ In (EPeerAbort c) evs) /\
+  (forall e1 e2 c k, evs = e1 ++ EGoawayFinal c :: e2 -> ~ In (ECallStart c k) e2).
 Proof.
-  intros T. destruct (trace_ok_sound _ T) as (ls & s & R & O & D). rewrite <- O. clear O evs T.
+  intros T. destruct (trace_ok_sound _ _ T) as (ls & s & R & O & D). rewrite <- O. clear O evs T.
   pose proof hyper_std_contract as HC. cbv zeta.
-  split; [|split].
+  split; [|split; [|split; [|split]]].
   - intros e e1 e2 c He E i.
     destruct (observe_split _ _ _ _ E) as (l1 & l & l2 & -> & O1 & Ol & O2). subst e2.
     apply obs_accept in i. revert i.
     eapply (no_accept_after_signal _ _ _ _ R l); [|reflexivity].
     destruct He; subst e; destruct l; simpl in Ol; try discriminate; auto.
+  - intros e1 e2 E.
+    destruct (observe_split _ _ _ _ E) as (l1 & l & l2 & -> & O1 & Ol & O2). subst e1.
+    assert (l = SignalObserved) as -> by (destruct l; simpl in Ol; try discriminate; reflexivity).
+    apply run_app_inv in R as (m & R1 & R2). inversion R2; subst.
+    apply observed_needs_ready in H2.
+    destruct (fired_before_ready _ _ _ _ _ R1 H2) as [r|i]; [discriminate r|].
+    apply in_flat_map. exists SignalFires. split; [exact i|now left].
   - intros e1 e2 E.
     destruct (observe_split _ _ _ _ E) as (l1 & l & l2 & -> & O1 & Ol & O2).
     assert (l = ServeReturns) as -> by (destruct l; simpl in Ol; try discriminate; reflexivity).
@@ -770,13 +877,9 @@ Proof.
     pose proof (run_inv _ _ _ _ _ inv_init R1) as Im.
     assert (Rm : reachable admits_std resolves_std m) by (exists l1; exact R1).
     destruct (serve_returns_only_when_all_closed _ _ _ _ Rm H2) as [AC Dm].
-    assert (l2 = []) as ->.
-    { destruct l2 as [|x l2]; [reflexivity|]. inversion H4; subst.
-      exfalso. eapply (done_terminal admits_std resolves_std m0); eauto.
-      eapply step_inv; eauto. }
-    split; [reflexivity|]. intros c i. apply obs_accept in i.
-    inversion H4; subst.
-    assert (Rf : run_std init_st (l1 ++ [ServeReturns]) s) by (eapply run_app; eauto using run_one).
+    destruct (done_run _ _ _ _ _ (step_inv _ _ _ _ _ Im H2) Dm H4) as [F2 _].
+    split; [now apply observe_only_fires|]. intros c i. apply obs_accept in i.
+    assert (Rf : run_std init_st (l1 ++ [ServeReturns]) m0) by (eapply run_app; eauto using run_one).
     destruct (served_connections_closed_before_return _ _ _ _ Rf Dm c) as [_ [d|d]].
     + apply in_or_app. now left.
     + apply in_app_or in d as [d|[d|[]]]; [|discriminate]. left. now apply obs_closed.
@@ -785,6 +888,13 @@ Proof.
     destruct (every_accepted_call_completed _ _ HC _ _ R D c k i) as [d|d].
     + left. now apply obs_done.
     + right. now apply obs_abort.
+  - intros e1 e2 c k E i.
+    destruct (observe_split _ _ _ _ E) as (l1 & l & l2 & -> & O1 & Ol & O2). subst e2.
+    assert (l = GoawayFinal c) as ->.
+    { destruct l; simpl in Ol; try discriminate. now injection Ol as <-. }
+    apply obs_start in i. apply run_app_inv in R as (m & R1 & R2). inversion R2; subst.
+    eapply (no_new_call_past_final _ _ HC _ _ _ c H4); eauto.
+    eapply goaway_final_is_final; eauto.
 Qed.
 
 (* the assertion behind the event EQuiet: in a stalled state no move of tonic, hyper or a handler
@@ -801,7 +911,8 @@ Proof.
   { intros c v L. apply lookup_in in L. exact (Q _ L). }
   repeat split; auto.
   - intros c v L. specialize (QL c v L).
-    destruct v as [[|] [|] [|] infl|[|]]; try discriminate; [right; eexists; reflexivity|now left].
+    destruct v as [[|] [|] [|] hp infl|[|]]; try discriminate;
+      [right; eexists; eexists; reflexivity|now left].
   - intros l s' H. unfold step in H.
     destruct l; try reflexivity; inv_step H; try congruence;
       try (apply Nat.eqb_eq in Heqb; congruence);
@@ -815,7 +926,7 @@ Qed.
 
 (* ---- the same facts stated over reachable states ---------------------------------------------- *)
 Section Reachable.
-  Variable admits resolves : bool -> list kid -> bool.
+  Variable admits resolves : gphase -> list kid -> bool.
   Hypothesis HC : hyper_contract admits resolves.
 
   Lemma serve_returns_iff_reachable s :
@@ -824,19 +935,73 @@ Section Reachable.
   Proof. intros R. apply serve_returns_iff. exact (reachable_inv _ _ _ R). Qed.
 
   Lemma done_terminal_reachable s l s' :
-    reachable admits resolves s -> acc s = Done -> ~ step admits resolves s l s'.
-  Proof. intros R D H. exact (done_terminal _ _ _ _ _ (reachable_inv _ _ _ R) D H). Qed.
+    reachable admits resolves s -> acc s = Done -> step admits resolves s l s' ->
+    l = SignalFires /\ acc s' = Done.
+  Proof. intros R. apply done_terminal. exact (reachable_inv _ _ _ R). Qed.
 
   Lemma no_deadlock_reachable s p :
     reachable admits resolves s -> acc s = Draining p ->
     (exists l s', step admits resolves s l s' /\ progress l = true) \/
-    (p = AtWait /\ rx_count s <> 0 /\ only_silent s).
+    (p = AtWait /\ rx_count s <> 0 /\ only_awaiting_peers s).
   Proof. intros R. apply (no_deadlock _ _ HC). exact (reachable_inv _ _ _ R). Qed.
 
   Lemma serve_can_return_reachable s :
     reachable admits resolves s -> acc s <> Selecting ->
     exists ls s', run admits resolves s ls s' /\
-                  Forall (fun l => progress l = true \/ is_handshake l = true) ls /\
+                  Forall (fun l => progress l = true \/ is_peer l = true) ls /\
                   acc s' = Done /\ length ls <= mu s.
   Proof. intros R. apply (serve_can_return _ _ HC). exact (reachable_inv _ _ _ R). Qed.
 End Reachable.
+
+(* ---- between the firing of the signal and its observation ------------------------------------ *)
+(* the signal is ready, the accept loop is still in its select! and has not taken the branch *)
+Definition sig_pending (s : st) : Prop :=
+  acc s = Selecting /\ sig_ready s = true /\ sig_fused s = false.
+
+Section Pending.
+  Variable admits resolves : gphase -> list kid -> bool.
+
+  Lemma count_fires s ls s' :
+    run admits resolves s ls s' ->
+    count_occ label_eq_dec ls SignalFires + b2n (sig_ready s) = b2n (sig_ready s').
+  Proof.
+    induction 1; [reflexivity|]. rewrite <- IHrun. clear IHrun H0. unfold step in H.
+    destruct l; inv_step H; simpl; try reflexivity; try rewrite Heqb; simpl; lia.
+  Qed.
+
+  Lemma signal_fires_once ls s :
+    run admits resolves init_st ls s -> count_occ label_eq_dec ls SignalFires <= 1.
+  Proof. intros R. pose proof (count_fires _ _ _ R). destruct (sig_ready s); simpl in *; lia. Qed.
+
+  (* the branch can be taken at any moment from then on ... *)
+  Lemma pending_enables_observation s :
+    sig_pending s ->
+    exists s', step admits resolves s SignalObserved s' /\ acc s' = Draining AtSend.
+  Proof.
+    intros (A & R & F). eexists. unfold step. simpl. rewrite A, R, F. split; reflexivity.
+  Qed.
+
+  (* ... and nothing but taking it (or the listener ending) changes that: in particular further
+     connections can be accepted in between, and the branch stays enabled *)
+  Lemma pending_stable s l s' :
+    step admits resolves s l s' -> sig_pending s ->
+    l <> SignalObserved -> l <> IncomingEnd -> sig_pending s'.
+  Proof.
+    unfold step, sig_pending. intros H (A & R & F) n1 n2.
+    destruct l; inv_step H; simpl; try congruence; auto.
+  Qed.
+
+  Lemma signal_enabled_until_observed s ls s' :
+    run admits resolves s ls s' -> sig_pending s ->
+    ~ In SignalObserved ls -> ~ In IncomingEnd ls -> sig_pending s'.
+  Proof.
+    induction 1; intros P n1 n2; [assumption|]. simpl in n1, n2.
+    apply IHrun; [|tauto|tauto].
+    eapply pending_stable; eauto; intros ->; tauto.
+  Qed.
+
+  Lemma fires_makes_pending s s' :
+    step admits resolves s SignalFires s' -> acc s = Selecting -> sig_fused s = false ->
+    sig_pending s'.
+  Proof. unfold step, sig_pending. intros H A F. inv_step H. simpl. auto. Qed.
+End Pending.
